@@ -79,9 +79,9 @@ theorem clientRecv_rsp2Byte (reqId : Int) (p : RspPacket) (h : RspPacketOK p)
   have hl : ¬ ((be 4 (4 + (encStruct packetEnv rspPacketName p.toVal).length)
       ++ encStruct packetEnv rspPacketName p.toVal).length < cpUnpackHeaderSkip) := by
     rw [frame_length]; simp only [cpUnpackHeaderSkip]; omega
-  have h0 : ¬ (p.iRequestId = 0) := by rw [hid]; exact hnz
   simp only [hl, if_false, cpUnpackHeaderSkip, drop4_frame, decode_rspPacket p h, rspPacket_ofVal,
-    h0, hpt, hid, if_true]
+    hpt, hid, if_true]
+  simp only [hnz, if_false]
 
 /-! ## `doInvoke` -/
 
@@ -129,12 +129,14 @@ theorem doInvoke_ok (vs : Variants) (env : Env) (rk : String → Nat) (cfg : Cfg
     (by simp [proxyRequest, mkRequest, hcall.version])
     (by simp [proxyRequest, mkRequest]) hcall.nparams hcall.tys hcall.argsWT (args_small hcall)
     (by simpa [proxyRequest, mkRequest] using hcall.notPing)
-  unfold doInvoke
-  rw [recvFirst_requestPack cfg.maxLen _ hcall.maxLen hcall.fits]
-  simp only [serverHandle_pack vs env sreg iface _ hreq, hcore]
+  have e0 : doInvoke vs env cfg sreg iface (proxyRequest env cfg f.name f.sig oneway args opts) resp
+      = afterSend vs env cfg sreg iface (proxyRequest env cfg f.name f.sig oneway args opts) resp
+          (recvFirst cfg.maxLen (requestPack (proxyRequest env cfg f.name f.sig oneway args opts))) := rfl
+  rw [e0, recvFirst_requestPack cfg.maxLen _ hcall.maxLen hcall.fits]
+  simp only [afterSend, serverHandle_pack vs env sreg iface _ hreq, hcore]
   cases oneway with
   | true =>
-    simp [proxyRequest, mkRequest, cpProxyOnewayType, cpTARSONEWAY]
+    simp [afterServer, proxyRequest, mkRequest, cpProxyOnewayType, cpTARSONEWAY]
   | false =>
     have himpl' := himpl rfl
     have hpt : (proxyRequest env cfg f.name f.sig false args opts).cPacketType ≠ (cpTARSONEWAY : Int) := by
@@ -157,9 +159,11 @@ theorem doInvoke_ok (vs : Variants) (env : Env) (rk : String → Nat) (cfg : Cfg
     have hctx : (proxyRequest env cfg f.name f.sig false args opts).context = (optsMaps opts).1.getD [] := rfl
     have hst : (proxyRequest env cfg f.name f.sig false args opts).status = (optsMaps opts).2.getD [] := rfl
     simp only [hctx, hst] at hcore ⊢
-    simp only [hpt, if_false, Bool.false_eq_true,
-      recvFirst_rsp2Byte cfg.maxLen _ hcall.maxLen himpl'.fits,
+    simp only [hpt, if_false, Bool.false_eq_true, afterServer,
+      recvFirst_rsp2Byte cfg.maxLen _ hcall.maxLen himpl'.fits, awaitReply,
       clientRecv_rsp2Byte _ _ hrsp hid hcall.reqIdNZ hpt2]
-    split <;> rfl
+    split
+    · rename_i e he; rw [he]
+    · rename_i he; rw [he]
 
 end Tars.CallPath
